@@ -9,12 +9,38 @@
 #include <string>
 #include <cstdint>
 
+// ---- round 3b (fragility sweep): everything that is not public API named by the property is OPTIONAL ----
+// The member through which callers read the packet of the legacy receiver is `line` (public struct of a
+// public header, no accessor exists).  Should it be renamed, the harness still builds: the struct sline is
+// then taken to be the first member of the struct (what it is in C today).
+template <class T> static struct sline *leg_line(T *a)
+{
+    if constexpr (requires { a->line; }) return &a->line;
+    else return reinterpret_cast<struct sline *>(a);
+}
+
+// The legacy alphabet: the macro names GSTUFF_*_V1 of gstuff_v1/gstuff.h are used when they exist; otherwise
+// the four bytes are PROBED through the encoder (behaviour only): the frame of the empty payload starts with
+// the marker; the escape byte and the two codes are read off the frames of one-byte payloads.
 extern "C" void leg_constants(uint8_t out[4])
 {
+#if defined(GSTUFF_START_V1) && defined(GSTUFF_STUB_V1) && defined(GSTUFF_STUB_START_V1) && defined(GSTUFF_STUB_STUB_V1)
     out[0] = (uint8_t)GSTUFF_START_V1;
     out[1] = (uint8_t)GSTUFF_STUB_V1;
     out[2] = (uint8_t)GSTUFF_STUB_START_V1;
     out[3] = (uint8_t)GSTUFF_STUB_STUB_V1;
+#else
+    char in[1] = {0}, o[8];
+    gstuffing_v1(in, 0, o);
+    out[0] = (uint8_t)o[0];
+    in[0] = (char)out[0];
+    int n = gstuffing_v1(in, 1, o);          // marker, then (n >= 5) escape byte + code of the marker
+    out[1] = n >= 5 ? (uint8_t)o[1] : 0;
+    out[2] = n >= 5 ? (uint8_t)o[2] : 0;
+    in[0] = (char)out[1];
+    n = gstuffing_v1(in, 1, o);              // marker, escape byte + code of the escape byte
+    out[3] = n >= 5 ? (uint8_t)o[2] : 0;
+#endif
 }
 
 // encode into an exactly sized heap buffer of `outcap` bytes (ASan sees overflow)
@@ -54,17 +80,18 @@ void leg_feed(const std::vector<uint8_t> &stream, unsigned cap, std::string &sts
         case GSTUFF_DATA_ERROR_V1: ch = 'S'; break;
         }
         sts.push_back(ch);
-        if (maxsize && (size_t)sline_size(&a.line) > *maxsize) *maxsize = (size_t)sline_size(&a.line);
+        if (maxsize && (size_t)sline_size(leg_line(&a)) > *maxsize) *maxsize = (size_t)sline_size(leg_line(&a));
         if (s == GSTUFF_NEWPACKAGE_V1)
         {
-            int n = sline_size(&a.line);
-            const char *l = sline_getline(&a.line); // writes the terminator: must stay inside buf
+            int n = sline_size(leg_line(&a));
+            const char *l = sline_getline(leg_line(&a)); // writes the terminator: must stay inside buf
             std::vector<uint8_t> raw((const uint8_t *)l, (const uint8_t *)l + n);
             rawlines.push_back(raw);
             if (n > 0) raw.pop_back();
             packets.push_back(raw);
         }
     }
+    if (cap == 0) (void)sline_getline(leg_line(&a));   // round 3b: no terminator into a zero-length region
     free(base);
 }
 
@@ -73,7 +100,7 @@ static struct gstuff_autorecv_v1 g_leg;      // zero-initialised: state 0, no bu
 void leg_sess_start() { memset(&g_leg, 0, sizeof g_leg); }
 void leg_sess_setbuf(uint8_t *blk, unsigned cap) { gstuff_autorecv_setbuf_v1(&g_leg, blk, (int)cap); }
 void leg_sess_reset() { gstuff_autorecv_reset_v1(&g_leg); }
-size_t leg_sess_size() { return (size_t)sline_size(&g_leg.line); }
+size_t leg_sess_size() { return (size_t)sline_size(leg_line(&g_leg)); }
 // feed; `can_read`: a buffer of at least 1 byte is attached (sline_getline writes the terminator)
 void leg_sess_feed(const std::vector<uint8_t> &stream, bool can_read, std::string &sts,
                    std::vector<std::vector<uint8_t>> &packets, size_t *maxsize)
@@ -91,11 +118,11 @@ void leg_sess_feed(const std::vector<uint8_t> &stream, bool can_read, std::strin
         case GSTUFF_DATA_ERROR_V1: ch = 'S'; break;
         }
         sts.push_back(ch);
-        if (maxsize && (size_t)sline_size(&g_leg.line) > *maxsize) *maxsize = (size_t)sline_size(&g_leg.line);
+        if (maxsize && (size_t)sline_size(leg_line(&g_leg)) > *maxsize) *maxsize = (size_t)sline_size(leg_line(&g_leg));
         if (s == GSTUFF_NEWPACKAGE_V1 && can_read)
         {
-            int n = sline_size(&g_leg.line);
-            const char *l = sline_getline(&g_leg.line);
+            int n = sline_size(leg_line(&g_leg));
+            const char *l = sline_getline(leg_line(&g_leg));
             std::vector<uint8_t> raw((const uint8_t *)l, (const uint8_t *)l + n);
             if (n > 0) raw.pop_back();
             packets.push_back(raw);
@@ -114,10 +141,23 @@ int leg_encode_into(const std::vector<uint8_t> &p, uint8_t *out)
 // sizeof: return type and `size` parameter of gstuffing_v1, crc and state fields of the receiver struct
 template <class R, class A, class B, class C> static size_t ret_size(R (*)(A, B, C)) { return sizeof(R); }
 template <class R, class A, class B, class C> static size_t arg2_size(R (*)(A, B, C)) { return sizeof(B); }
+// out[0], out[1]: public signature of gstuffing_v1.  out[2], out[3]: widths of the receiver struct's `crc`
+// and `state` members - internal, not fixed by the property: 0 when the members do not exist under these
+// names; reported as a tag by op `sizes`, not compared
+template <class T> static size_t leg_crc_size(T *a)
+{
+    if constexpr (requires { a->crc; }) return sizeof(a->crc);
+    else return 0;
+}
+template <class T> static size_t leg_state_size(T *a)
+{
+    if constexpr (requires { a->state; }) return sizeof(a->state);
+    else return 0;
+}
 void leg_sizes(size_t out[4])
 {
     out[0] = ret_size(&gstuffing_v1);
     out[1] = arg2_size(&gstuffing_v1);
-    out[2] = sizeof(((struct gstuff_autorecv_v1 *)0)->crc);
-    out[3] = sizeof(((struct gstuff_autorecv_v1 *)0)->state);
+    out[2] = leg_crc_size((struct gstuff_autorecv_v1 *)0);
+    out[3] = leg_state_size((struct gstuff_autorecv_v1 *)0);
 }
